@@ -166,6 +166,25 @@ def _work(args):
                      ("absolute sibling directory with a longer name", one, [os.path.join(sib, "d")]),
                      ("absolute sibling root with a longer name", one, [sib]),
                      ("relative sibling directory with a longer name", one, [os.path.join("..", os.path.basename(sib))])]
+            # symbolic links: a link below the working directory whose target lies outside it, a link that stays inside,
+            # a linked directory (seeded change C03-10: the guard looks at the unresolved path, the arithmetic at the resolved one)
+            lk = tempfile.mkdtemp(prefix="c03_lnk_", dir=tmp)
+            os.makedirs(os.path.join(lk, "work", "pkg"))
+            os.makedirs(os.path.join(lk, "shared"))
+            base = os.path.basename(name)
+            shutil.copy(os.path.join(root, name), os.path.join(lk, "shared", base))
+            shutil.copy(os.path.join(root, name), os.path.join(lk, "work", "own_" + base))
+            os.symlink(os.path.join("..", "..", "shared", base), os.path.join(lk, "work", "pkg", base))
+            os.symlink(os.path.join("..", "own_" + base), os.path.join(lk, "work", "pkg", "in_" + base))
+            os.symlink(os.path.join("..", "shared"), os.path.join(lk, "work", "linked"))
+            w = os.path.join(lk, "work")
+            ways += [("relative link to a file outside the working directory", w, [os.path.join("pkg", base)]),
+                     ("relative link to a file inside the working directory", w, [os.path.join("pkg", "in_" + base)]),
+                     ("directory containing a link that leaves the working directory", w, ["pkg"]),
+                     ("absolute directory containing such a link", w, [os.path.join(w, "pkg")]),
+                     ("the working directory itself, with links", w, ["."]),
+                     ("linked directory whose target lies outside", w, ["linked"]),
+                     ("file below a linked directory", w, [os.path.join("linked", base)])]
         for way, cwd, argv in ways:
             try:
                 code = timed(lambda: run_check_command(cwd, argv), 60)
